@@ -432,6 +432,99 @@ def literal_ok(G):
         return False
 
 
+# ------------------------------------------------------------------------------ second oracle (Python)
+def py_fail_c10(case, sq0, sq1, shared, dis):
+    """mirror of SquashCheck.prop_fail (incl. the class codes), used only when the Coq side cannot be built"""
+    def heavy(G):
+        return [n for n, d in G.nodes(data=True) if d.get('element') != 'H']
+
+    def origin(G, phi):
+        table = {(nm, i): o for nm, i, o in phi}
+        out = {}
+        for n in heavy(G):
+            try:
+                os_ = {table[(nm, i)] for nm, i in G.nodes[n]['mapping']}
+            except (KeyError, TypeError, ValueError):
+                return None
+            if len(os_) != 1:
+                return None
+            out[n] = os_.pop()
+        return out
+
+    def bonds(G, m):
+        return sorted((min(m[u], m[v]), max(m[u], m[v]), int(2 * d.get('order', 1)))
+                      for u, v, d in G.edges(data=True) if u in m and v in m)
+
+    def sig(G, m):
+        return sorted((m[n], G.nodes[n].get('element'), G.nodes[n].get('charge'),
+                       sum(1 for x in G[n] if G.nodes[x].get('element') == 'H')) for n in m)
+
+    def base():
+        if shared is None:
+            return 1
+        md = origin(dis, case['disjoint']['phi'])
+        if md is None:
+            return 0
+        ms = origin(shared, case['shared']['phi'])
+        if ms is None:
+            return 2
+        if len(set(md.values())) != len(md):
+            return 0
+        if len(set(ms.values())) != len(ms):
+            return 3
+        if len(ms) != case['shared']['frag_heavy'] - case['shared']['npairs']:
+            return 4
+        if bonds(shared, ms) != bonds(dis, md):
+            return 5
+        if sig(shared, ms) != sig(dis, md):
+            return 6
+        owners = {a: sorted(fs) for a, fs in case['shared']['owners']}
+        for n, a in ms.items():
+            fl = shared.nodes[n].get('fragid')
+            if not isinstance(fl, list) or len(set(fl)) != len(fl) or sorted(fl) != owners.get(a):
+                return 7
+        if len(shared) != len(dis):
+            return 6
+        return 0
+    code = base()
+    if code == 0:
+        return 0
+    pairs = [(u, v) for (u, v), b in nx.get_edge_attributes(sq0, 'bonding').items() if b[0].startswith('!')]
+    parent = {}
+
+    def find(x):
+        while parent.get(x, x) != x:
+            x = parent[x]
+        return x
+    for u, v in pairs:
+        a, b = find(u), find(v)
+        if a == b:
+            return 11
+        parent[b] = a
+    sq, dead = {}, set()
+    for u, v in pairs:
+        keep, rm = sq.get(u, u), sq.get(v, v)
+        if keep in dead or rm in dead:
+            return 13
+        if keep == rm:
+            break
+        sq[rm] = keep
+        dead.add(rm)
+    if sq1 is not None:
+        from pysmiles.smiles_helper import valence
+        for n, d in sq1.nodes(data=True):
+            if 'contraction' in d and d.get('aromatic') and d.get('hcount', 0) > 0:
+                try:
+                    val = valence(d)
+                except ValueError:
+                    continue
+                b2 = sum(int(2 * e.get('order', 1)) for _, _, e in sq1.edges(n, data=True))
+                v = next((x for x in val if b2 <= 2 * x), val[-1] if val else None)
+                if v is not None and 2 * v < b2 + int(2 * d['hcount']):
+                    return 12
+    return code
+
+
 class C10(common.Prop):
     id = 'C10'
     level = 'proof'
@@ -494,7 +587,11 @@ class C10(common.Prop):
                 'disjoint': lit.obs_graph(dis, only_node=('element', 'charge', 'fragid', 'mapping'), only_edge=('order',)),
                 'pairs': [[u, v] for (u, v), b in nx.get_edge_attributes(rec['sq0'], 'bonding').items()
                           if b[0].startswith('!')],
-                'summary': {'shared_atoms': None if shared is None else len(shared), 'disjoint_atoms': len(dis)}}
+                'summary': {'shared_atoms': None if shared is None else len(shared), 'disjoint_atoms': len(dis)},
+                'py_code': py_fail_c10(case, rec['sq0'], rec.get('sq1'), shared, dis)}
+
+    def python_oracle(self, case, impl):
+        return impl.get('py_code', 0)
 
     def nontrivial(self, case, impl):
         return 'skip' not in impl
